@@ -328,6 +328,20 @@ func c04RefCompare(v, w string) int {
 }
 
 func genC04(g *Gen, n int) {
+	// every byte value at every position of one grammar-generated full version with prerelease and
+	// build (see c04ByteSweep), through validity and the accessor that depends on the changed part
+	tmpls := c04SweepTemplates(g.Rand, 1)
+	ops := []string{"semver.isvalid ", "semver.canonical ", "semver.prerelease ", "semver.build ", "semver.canonicalversion "}
+	for _, tmpl := range tmpls[len(tmpls)-1:] {
+		c04ByteSweep(tmpl, false, func(v string) {
+			g.Emit(ops[g.Intn(len(ops))]+hx(v), true, "byte-sweep")
+		})
+		for b := 0; b < 256; b++ { // appended byte: the trailing-garbage class
+			v := tmpl + string([]byte{byte(b)})
+			g.Emit("semver.isvalid "+hx(v), true, "byte-sweep")
+			g.Emit("semver.compare "+hx(v)+" "+hx(tmpl), true, "byte-sweep")
+		}
+	}
 	for i := 0; i < n; i++ {
 		v, nt := genVersion(g.Rand)
 		switch g.Intn(12) {
@@ -393,7 +407,96 @@ func sign(x int) int {
 	return 0
 }
 
+// c04CheckOne states the one-string clauses of the property on v: validity is the documented grammar,
+// the accessors and CanonicalVersion are empty for invalid strings, CanonicalVersion is Canonical plus
+// exactly the +incompatible suffix, Canonical is a fixed point equal to v under Compare.
+func c04CheckOne(g *Gen, v string) {
+	if semver.IsValid(v) != (semverRE.MatchString(v) && !strings.Contains(v, "\n")) {
+		g.Fail("IsValid disagrees with the documented grammar", v, "semver.isvalid "+hx(v))
+	}
+	if !semver.IsValid(v) && (semver.Canonical(v) != "" || semver.Major(v) != "" || semver.MajorMinor(v) != "" || semver.Prerelease(v) != "" || semver.Build(v) != "") {
+		g.Fail("accessor non-empty for invalid version", v, "semver.canonical "+hx(v))
+	}
+	want := semver.Canonical(v)
+	if semver.Build(v) == "+incompatible" {
+		want += "+incompatible"
+	}
+	if cv := module.CanonicalVersion(v); cv != want || !semver.IsValid(v) && cv != "" {
+		g.Fail("CanonicalVersion is not Canonical plus exactly the +incompatible build suffix (empty for invalid strings)", v, "semver.canonicalversion "+hx(v))
+	}
+	if semver.IsValid(v) {
+		cn := semver.Canonical(v)
+		if semver.Compare(v, cn) != 0 || !semver.IsValid(cn) || semver.Canonical(cn) != cn {
+			g.Fail("Canonical not a fixed point / not equal under Compare", v, "semver.canonical "+hx(v))
+		}
+	}
+}
+
+// c04SweepTemplates returns well-formed versions that between them have every position class of the
+// grammar: inside major/minor/patch, at the separators, inside a prerelease identifier (numeric,
+// alphanumeric, hyphen), between prerelease identifiers, inside and between build identifiers, the
+// +incompatible suffix, short forms. A few are fixed, the rest grammar-generated with short fields.
+func c04SweepTemplates(r *Rand, k int) []string {
+	t := []string{"v1.2.3-rc1", "v1.2.3-rc.1+build.5", "v1.2.3+meta", "v2.0.0+incompatible", "v1.2", "v1.0.0-0.x-y.10+a-b.0"}
+	for i := 0; i < k; i++ {
+		num := func() string { return r.Pick([]string{"0", "1", "7", "10", "23"}) }
+		id := func() string {
+			return r.Pick([]string{"0", "1", "10", "rc", "rc1", "a", "Z", "-", "x-y", "0a", "1-"})
+		}
+		v := "v" + num() + "." + num() + "." + num() + "-" + id()
+		for j := r.Intn(3); j > 0; j-- {
+			v += "." + id()
+		}
+		v += "+" + r.Pick([]string{"meta", "incompatible", "b1", "0", "-"})
+		for j := r.Intn(2); j > 0; j-- {
+			v += "." + id()
+		}
+		t = append(t, v)
+	}
+	return t
+}
+
+// c04ByteSweep calls f on every string obtained from tmpl by replacing the byte at one position by
+// any of the 256 byte values, or inserting any byte value at any position (including the end).
+//
+// Input class added for seeded change r5-C04-b: all other streams draw the "foreign" byte of a
+// near-miss from a small alphabet (version characters, '_', space, NUL, 0xff, a few literals), so a
+// character-class predicate that is wrong for ONE byte value outside that alphabet (there: 0x0d,
+// accepted as an identifier character after a case fold) is never exercised where it matters - inside
+// or at the end of the prerelease / build part of an otherwise well-formed vX.Y.Z. The sweep is
+// exhaustive on a small scope: every byte value at every position of a few templates.
+func c04ByteSweep(tmpl string, insert bool, f func(v string)) {
+	for pos := 0; pos <= len(tmpl); pos++ {
+		for b := 0; b < 256; b++ {
+			if pos < len(tmpl) && byte(b) != tmpl[pos] {
+				f(tmpl[:pos] + string([]byte{byte(b)}) + tmpl[pos+1:])
+			}
+			if insert {
+				f(tmpl[:pos] + string([]byte{byte(b)}) + tmpl[pos:])
+			}
+		}
+	}
+}
+
 func oracleC04(g *Gen, n int) {
+	// exhaustive single-byte substitution / insertion sweep over a few templates (see c04ByteSweep):
+	// one-string clauses on the result, and its order against the well-formed template it came from.
+	k := 3
+	if thorough {
+		k = 40
+	}
+	for _, tmpl := range c04SweepTemplates(g.Rand, k) {
+		c04ByteSweep(tmpl, true, func(v string) {
+			g.Case("byte-sweep")
+			c04CheckOne(g, v)
+			got, want := semver.Compare(v, tmpl), c04RefCompare(v, tmpl)
+			if got != want && !semverRE.MatchString(v) {
+				g.Fail("invalid version not below valid one", v+" "+tmpl, "semver.compare "+hx(v)+" "+hx(tmpl))
+			} else if got != want {
+				g.Fail("Compare is not SemVer 2.0.0 precedence", v+" "+tmpl+" got "+itoa(got)+" want "+itoa(want), "semver.compare "+hx(v)+" "+hx(tmpl))
+			}
+		})
+	}
 	for i := 0; i < n; i++ {
 		a, _ := genVersion(g.Rand)
 		b := genRelated(g.Rand, a)
@@ -410,25 +513,7 @@ func oracleC04(g *Gen, n int) {
 		g.Case("triple")
 		// grammar
 		for _, v := range []string{a, b, c} {
-			if semver.IsValid(v) != (semverRE.MatchString(v) && !strings.Contains(v, "\n")) {
-				g.Fail("IsValid disagrees with the documented grammar", v, "semver.isvalid "+hx(v))
-			}
-			if !semver.IsValid(v) && (semver.Canonical(v) != "" || semver.Major(v) != "" || semver.MajorMinor(v) != "" || semver.Prerelease(v) != "" || semver.Build(v) != "") {
-				g.Fail("accessor non-empty for invalid version", v, "semver.canonical "+hx(v))
-			}
-			want := semver.Canonical(v)
-			if semver.Build(v) == "+incompatible" {
-				want += "+incompatible"
-			}
-			if cv := module.CanonicalVersion(v); cv != want || !semver.IsValid(v) && cv != "" {
-				g.Fail("CanonicalVersion is not Canonical plus exactly the +incompatible build suffix (empty for invalid strings)", v, "semver.canonicalversion "+hx(v))
-			}
-			if semver.IsValid(v) {
-				cn := semver.Canonical(v)
-				if semver.Compare(v, cn) != 0 || !semver.IsValid(cn) || semver.Canonical(cn) != cn {
-					g.Fail("Canonical not a fixed point / not equal under Compare", v, "semver.canonical "+hx(v))
-				}
-			}
+			c04CheckOne(g, v)
 		}
 		ab, ba := semver.Compare(a, b), semver.Compare(b, a)
 		bc, ac := semver.Compare(b, c), semver.Compare(a, c)
